@@ -1,16 +1,26 @@
 #!/bin/bash
 # re-runs every kept seeded change against the committed checks (regression):
 # applies seeded/<name>/patch.diff to /repo, runs the property's quick check, reverts.
-# Prints one line per seed; seeds marked superseded are skipped.
+# Prints one line per seed; seeds marked superseded are skipped. By default only the harness that
+# caught the change last time is run (FULL=1 runs the whole property check). SKIP=<n> skips the first n seeds.
 cd /verif
+i=0
 for d in seeded/*/; do
   n=$(basename $d)
+  i=$((i+1)); if [ -n "$SKIP" ] && [ $i -le $SKIP ]; then continue; fi
   [ -f $d/meta.json ] || continue
   if python3 -c "import json,sys; m=json.load(open('$d/meta.json')); sys.exit(0 if m.get('status')=='superseded' else 1)"; then echo "$n superseded"; continue; fi
   p=${n%_*}
-  if ! git -C /repo apply --check $d/patch.diff 2>/dev/null; then echo "$n PATCH-DOES-NOT-APPLY"; continue; fi
-  git -C /repo apply $d/patch.diff
-  out=$(./check $p --tier quick 2>&1)
+  if ! git -C /repo apply --check /verif/$d/patch.diff 2>/dev/null; then echo "$n PATCH-DOES-NOT-APPLY"; continue; fi
+  git -C /repo apply /verif/$d/patch.diff
+  h=$(python3 -c "
+import json,re
+m=json.load(open('$d/meta.json'))
+for l in m.get('violation_lines') or []:
+    mm=re.search(r'\((Harness\w+) ', l)
+    if mm: print(mm.group(1)); break
+")
+  if [ -n "$h" ] && [ "$FULL" != "1" ]; then out=$(./check $p --tier quick --only $h 2>&1); else out=$(./check $p --tier quick 2>&1); fi
   rc=$?
   git -C /repo checkout -- . ; git -C /repo clean -fdq
   v=$(echo "$out" | grep -c '^VIOLATION')
